@@ -119,6 +119,10 @@ class World(object):
                 for st in (rps.PMGR_LAUNCHING, rps.PMGR_ACTIVE, rps.DONE):
                     if st != self.pstate.get(pid):
                         ev.append(('pstate', pid, st))
+            elif self.scn.get('early_pstate') and pid not in self.pstate:
+                # the pilot manager publishes pilot states from submission on:
+                # an update may reach the scheduler before `add_pilots` does
+                ev.append(('pstate', pid, rps.PMGR_LAUNCHING))
         if self.scn.get('pstate_pairs') and {'p1', 'p2'} <= self.ever:
             # one state message naming both pilots, either order
             for a, b in (('p1', 'p2'), ('p2', 'p1')):
@@ -413,9 +417,19 @@ class World(object):
                     if t['state'] == rps.FAILED:
                         self.failed.add(t['uid'])
 
-        # nobody is failed by the scheduler while an eligible pilot exists
+        # nobody is failed by the scheduler while an eligible pilot exists; a
+        # task which names a pilot waits for that pilot, it is not failed
+        # because the pilot is not there yet
         for uid in sorted(self.failed):
             t = self.task_by_uid(uid)
+            if t['pilot'] and uid not in self.pushed and \
+               t['pilot'] in ('p1', 'p2') and t['pilot'] not in self.removed:
+                raise Violation('named-failed|%s|%s' % (self.site(ev[0]),
+                                                        ev[0]),
+                                '%s names %s and was FAILED by the scheduler '
+                                '(pilot added: %s); events %s; exceptions %s'
+                                % (uid, t['pilot'], t['pilot'] in self.added,
+                                   self.trace, self.raised))
             if t['pilot'] or uid in self.pushed:
                 continue
             if sched == 'rr':
@@ -664,6 +678,7 @@ def scenarios(quick):
                         'tasks': tasks,
                         'add_pairs': True,
                         'pstate_pairs': name in ('u1u1u1', 'n1u1n1'),
+                        'early_pstate': name in ('n1u1n1', 'n2n2u1'),
                         'pairs_final': sched == 'bf' and name in
                                        ('u1u1u1', 'u4u4u4u1', 'n1u1n1')})
     return out
